@@ -118,6 +118,7 @@ def generate(src):
     ex = Ex({'logger.*': noop, 'get_all_schedules': h_get_all, 'scheduled_tasks.items': h_items, 'get_task_delay': h_get_task_delay, 'delayed_send': h_delayed_send, 'loop.create_task': h_create_task,
              'running_schedules.add': noop, 'send_task.add_done_callback': noop, 'len': lambda ex, st, e, recv, a, kw, k, K: k(st, PyInt(fresh('len', IntSort()))),
              'datetime.now': h_now, 'timedelta': h_timedelta, 'asyncio.sleep': h_sleep, '@for': h_for})
+    ex.inline_scope = (src, REL, None)
     st = State(); st.env = {'scheduler': fresh('scheduler'), 'loop': fresh('loop'), 'running_schedules': fresh('running')}
     st.pc += [NS >= 0]; st.facts.append(ForAll([s_], ntasks(s_) >= 0))
     st.ghost = dict(n=IntVal(0), os=K(IntSort(), IntVal(0)), ot=K(IntSort(), IntVal(0)), od=K(IntSort(), Val.none), pos=Function('pos0', IntSort(), IntSort(), IntSort()), last_now=IntVal(0), last_eval=IntVal(0), reads=[], sleeps=0, slept=None)
